@@ -398,4 +398,15 @@ def evalS (ρ : SEnv) : SqlE → Option SVal
     if (← evalS ρ c).truth = some true then evalS ρ v else evalS ρ rest
   | .caseElse e => evalS ρ e
 
+/-! ### end to end: source tree → RQ → SQL text → SQLite's value -/
+def envV (ρ : List (Option Int)) : Env := ρ.map fun | none => Value.null | some i => Value.num i
+def envS (ρ : List (Option Int)) : SEnv := ρ.map fun | none => SVal.null | some i => SVal.int i
+
+/-- the value SQLite computes for the SQL the compiler emits for `e`, on a row of integers / NULLs -/
+def sqlValue (d : Dialect) (ρ : List (Option Int)) (e : SExpr) : Option Value := do
+  let s ← sqlPrint d (staticEval (expand e))
+  let q ← sqlParse s
+  let v ← evalS (envS ρ) q
+  pure v.toValue
+
 end Model.SqlExpr
